@@ -833,3 +833,176 @@ Proof.
     destruct S as [W [A2 _]].
     split; [exact W|]. eapply agree_trans; [exact A1|]. eapply agree_le; [|exact A2]. exact L1.
 Qed.
+
+(* ---------- histories: reads and AddErrorToValidation calls interleaved on one running object ---------- *)
+Lemma build_earg_ok n a : forall h e h1,
+  n <= length h -> earg_ok n a = true -> build_earg a h = (e, h1) ->
+  err_wf h1 e = true /\ agree (length h) h h1.
+Proof.
+  induction a as [| |s|b|s a IH]; intros h e h1 Hn Hok E; cbn [build_earg] in E.
+  - injection E as <- <-. split; [reflexivity|apply agree_refl].
+  - injection E as <- <-. split; [reflexivity|apply agree_refl].
+  - injection E as <- <-. split; [reflexivity|apply agree_refl].
+  - destruct (build b h) as [t h'] eqn:Eb. injection E as <- <-.
+    exact (build_ok n b h t h' Hn Hok Eb).
+  - destruct (build_earg a h) as [e' h'] eqn:Ea. injection E as <- <-.
+    exact (IH h e' h' Hn Hok Ea).
+Qed.
+
+Lemma kid_lookup_in l k c : kid_lookup l k = Some c -> In (k, c) l.
+Proof.
+  induction l as [|[k' c'] r IH]; simpl; [discriminate|].
+  destruct (String.eqb_spec k' k) as [->|_]; intros E; [injection E as ->; now left|right; now apply IH].
+Qed.
+
+Lemma child_at_wf n p : forall t c, wfn n t = true -> child_at t p = Some c -> wfn n c = true.
+Proof.
+  induction p as [|k r IH]; intros t c Hw E; cbn [child_at] in E.
+  - now injection E as <-.
+  - destruct t as [e w ks]. apply wfn_node in Hw as [_ [_ Hk]].
+    destruct (kid_lookup (okids ks) k) as [c'|] eqn:El; [|discriminate].
+    apply kid_lookup_in in El. rewrite forallb_forall in Hk. apply (IH c' c); [exact (Hk _ El)|exact E].
+Qed.
+
+Lemma cur_err_pairs w h cur : err_pairs w h (cur_err cur) = res_pairs w h cur.
+Proof. now destruct cur. Qed.
+
+Lemma cur_err_wf h cur : err_wf h (cur_err cur) = cur_wf h cur.
+Proof. now destruct cur. Qed.
+
+Lemma cur_wf_len h h' cur : length h <= length h' -> cur_wf h cur = true -> cur_wf h' cur = true.
+Proof. destruct cur; [apply wf_agree|reflexivity]. Qed.
+
+Lemma res_pairs_agree w h h' cur :
+  agree (length h) h h' -> cur_wf h cur = true -> res_pairs w h' cur = res_pairs w h cur.
+Proof. intros A W. destruct cur as [t|]; [|reflexivity]. simpl. now rewrite (abs_agree _ _ _ A _ W). Qed.
+
+(* what one step guarantees *)
+Definition hstep_ok (o : hop) (cur : option ve) (h : heap) (x : hres) (cur' : option ve) (h' : heap) : Prop :=
+  cur_wf h' cur' = true /\ heap_le h h' /\
+  (forall w, msubP (res_pairs w h cur) (res_pairs w h' cur')) /\
+  match o with
+  | HRead op =>
+      cur' = cur /\ agree (length h) h h' /\
+      match cur with
+      | Some t => exists v, x = HVal v /\ val_spec (abs h t) op v /\ abs h' t = abs h t
+      | None => x = HSkip
+      end
+  | HReadChild p op =>
+      cur' = cur /\ agree (length h) h h' /\
+      match cur with
+      | Some t => abs h' t = abs h t /\
+                  match child_at t p with
+                  | Some c => exists v, x = HVal v /\ val_spec (abs h c) op v
+                  | None => x = HSkip
+                  end
+      | None => x = HSkip
+      end
+  | HAdd a | HAddTo a =>
+      x = HAbs (option_map (abs h') cur') /\
+      forall e h1, build_earg a h = (e, h1) ->
+                   forall w, msubP (res_pairs w h cur ++ err_pairs w h1 e) (res_pairs w h' cur')
+  | HAddChild p a => cur' = cur
+  end.
+
+Lemma hstep_spec n o cur h :
+  n <= length h -> hop_ok n o = true -> cur_wf h cur = true ->
+  exists x cur' h', hstep o cur h = Result (x, cur', h') /\ hstep_ok o cur h x cur' h'.
+Proof.
+  intros Hn Hok Hw. destruct o as [op|p op|a|a|p a]; cbn [hstep].
+  - (* read *)
+    destruct cur as [t|].
+    + destruct (do_read_spec op t h Hw) as [v [h' [E [A V]]]]. rewrite E. cbn [bind].
+      exists (HVal v), (Some t), h'. split; [reflexivity|].
+      assert (Eq : abs h' t = abs h t) by apply (abs_agree _ _ _ A _ Hw).
+      split; [eapply wf_agree; [|exact Hw]; exact (agree_len _ _ _ A)|].
+      split; [now apply agree_heap_le|]. split; [intros w; simpl; rewrite Eq; apply msubP_refl|].
+      split; [reflexivity|]. split; [exact A|]. exists v. now repeat split.
+    + exists HSkip, None, h. split; [reflexivity|]. split; [reflexivity|]. split; [apply heap_le_refl|].
+      split; [intros w; apply msubP_refl|]. split; [reflexivity|]. split; [apply agree_refl|reflexivity].
+  - (* read of a descendant *)
+    destruct cur as [t|].
+    + destruct (child_at t p) as [c|] eqn:Ec.
+      * assert (Wc : wf h c = true) by (eapply child_at_wf; eassumption).
+        destruct (do_read_spec op c h Wc) as [v [h' [E [A V]]]]. rewrite E. cbn [bind].
+        exists (HVal v), (Some t), h'. split; [reflexivity|].
+        assert (Eq : abs h' t = abs h t) by apply (abs_agree _ _ _ A _ Hw).
+        split; [eapply wf_agree; [|exact Hw]; exact (agree_len _ _ _ A)|].
+        split; [now apply agree_heap_le|]. split; [intros w; simpl; rewrite Eq; apply msubP_refl|].
+        split; [reflexivity|]. split; [exact A|]. split; [exact Eq|]. rewrite Ec. now exists v.
+      * exists HSkip, (Some t), h. split; [reflexivity|]. split; [exact Hw|]. split; [apply heap_le_refl|].
+        split; [intros w; apply msubP_refl|]. split; [reflexivity|]. split; [apply agree_refl|].
+        split; [reflexivity|]. now rewrite Ec.
+    + exists HSkip, None, h. split; [reflexivity|]. split; [reflexivity|]. split; [apply heap_le_refl|].
+      split; [intros w; apply msubP_refl|]. split; [reflexivity|]. split; [apply agree_refl|reflexivity].
+  - (* cur = AddErrorToValidation(cur, a) *)
+    destruct (build_earg a h) as [e h1] eqn:Eb.
+    destruct (build_earg_ok n a h e h1 Hn Hok Eb) as [We A1]. pose proof (agree_len _ _ _ A1) as L1.
+    assert (Wc1 : err_wf h1 (cur_err cur) = true) by (rewrite cur_err_wf; eapply cur_wf_len; eassumption).
+    destruct (add_contains (cur_err cur) e h1 Wc1 We) as [r [h2 [E [LE [Wr C]]]]]. rewrite E. cbn [bind].
+    exists (HAbs (option_map (abs h2) r)), r, h2. split; [reflexivity|].
+    assert (C' : forall w, msubP (res_pairs w h cur ++ err_pairs w h1 e) (res_pairs w h2 r)).
+    { intros w. specialize (C w). rewrite cur_err_pairs in C. now rewrite (res_pairs_agree w h h1 cur A1 Hw) in C. }
+    split; [destruct r; [exact Wr|reflexivity]|].
+    split; [eapply heap_le_trans; [apply agree_heap_le; exact A1|exact LE]|].
+    split; [intros w; eapply msubP_trans; [apply msubP_app_r|apply C']|].
+    split; [reflexivity|]. intros e' h1' Eb'. rewrite Eb in Eb'. injection Eb' as <- <-. exact C'.
+  - (* cur = AddErrorToValidation(a, cur) *)
+    destruct (build_earg a h) as [e h1] eqn:Eb.
+    destruct (build_earg_ok n a h e h1 Hn Hok Eb) as [We A1]. pose proof (agree_len _ _ _ A1) as L1.
+    assert (Wc1 : err_wf h1 (cur_err cur) = true) by (rewrite cur_err_wf; eapply cur_wf_len; eassumption).
+    destruct (add_contains e (cur_err cur) h1 We Wc1) as [r [h2 [E [LE [Wr C]]]]]. rewrite E. cbn [bind].
+    exists (HAbs (option_map (abs h2) r)), r, h2. split; [reflexivity|].
+    assert (C' : forall w, msubP (res_pairs w h cur ++ err_pairs w h1 e) (res_pairs w h2 r)).
+    { intros w. specialize (C w). rewrite cur_err_pairs in C. rewrite (res_pairs_agree w h h1 cur A1 Hw) in C.
+      eapply msubP_perm_l; [apply Permutation_app_comm|exact C]. }
+    split; [destruct r; [exact Wr|reflexivity]|].
+    split; [eapply heap_le_trans; [apply agree_heap_le; exact A1|exact LE]|].
+    split; [intros w; eapply msubP_trans; [apply msubP_app_r|apply C']|].
+    split; [reflexivity|]. intros e' h1' Eb'. rewrite Eb in Eb'. injection Eb' as <- <-. exact C'.
+  - (* a descendant is extended *)
+    destruct cur as [t|].
+    + destruct (child_at t p) as [c|] eqn:Ec.
+      * destruct (build_earg a h) as [e h1] eqn:Eb.
+        destruct (build_earg_ok n a h e h1 Hn Hok Eb) as [We A1]. pose proof (agree_len _ _ _ A1) as L1.
+        assert (Wc : wf h1 c = true) by (eapply wf_agree; [exact L1|]; eapply child_at_wf; eassumption).
+        destruct (add_contains (EVE c) e h1 Wc We) as [r [h2 [E [LE [_ _]]]]]. rewrite E. cbn [bind].
+        exists (HAbs (Some (abs h2 t))), (Some t), h2. split; [reflexivity|].
+        assert (LE02 : heap_le h h2) by (eapply heap_le_trans; [apply agree_heap_le; exact A1|exact LE]).
+        split; [eapply wf_agree; [|exact Hw]; exact (heap_le_length _ _ LE02)|].
+        split; [exact LE02|]. split; [intros w; simpl; now apply pairs_mono|reflexivity].
+      * exists HSkip, (Some t), h. split; [reflexivity|]. split; [exact Hw|]. split; [apply heap_le_refl|].
+        split; [intros w; apply msubP_refl|reflexivity].
+    + exists HSkip, None, h. split; [reflexivity|]. split; [reflexivity|]. split; [apply heap_le_refl|].
+      split; [intros w; apply msubP_refl|reflexivity].
+Qed.
+
+(* a whole history: every step is as specified, from the state the previous step left *)
+Inductive hist_ok : list hop -> option ve -> heap -> list hres -> option ve -> heap -> Prop :=
+| hist_nil cur h : hist_ok [] cur h [] cur h
+| hist_cons o ops cur h x cur1 h1 xs cur2 h2 :
+    hstep_ok o cur h x cur1 h1 -> hist_ok ops cur1 h1 xs cur2 h2 ->
+    hist_ok (o :: ops) cur h (x :: xs) cur2 h2.
+
+Lemma run_history_spec n ops : forall cur h,
+  n <= length h -> forallb (hop_ok n) ops = true -> cur_wf h cur = true ->
+  exists xs cur' h', run_history ops cur h = Result (xs, cur', h') /\ hist_ok ops cur h xs cur' h'.
+Proof.
+  induction ops as [|o r IH]; intros cur h Hn Hok Hw; cbn [run_history].
+  - exists [], cur, h. split; [reflexivity|constructor].
+  - cbn [forallb] in Hok. apply andb_true_iff in Hok as [Ho Hr].
+    destruct (hstep_spec n o cur h Hn Ho Hw) as [x [cur1 [h1 [E S]]]]. rewrite E. cbn [bind].
+    pose proof S as [W1 [LE1 _]].
+    destruct (IH cur1 h1 ltac:(pose proof (heap_le_length _ _ LE1); lia) Hr W1) as [xs [cur2 [h2 [E2 S2]]]].
+    rewrite E2. cbn [bind]. exists (x :: xs), cur2, h2. split; [reflexivity|]. econstructor; eassumption.
+Qed.
+
+Lemma hist_nothing_lost ops cur h xs cur' h' :
+  hist_ok ops cur h xs cur' h' ->
+  heap_le h h' /\ forall w, msubP (res_pairs w h cur) (res_pairs w h' cur').
+Proof.
+  induction 1 as [|o ops cur h x cur1 h1 xs cur2 h2 S _ IH].
+  - split; [apply heap_le_refl|intros w; apply msubP_refl].
+  - destruct S as [_ [LE [M _]]]. destruct IH as [LE' M']. split; [eapply heap_le_trans; eassumption|].
+    intros w. eapply msubP_trans; [apply M|apply M'].
+Qed.
